@@ -89,6 +89,15 @@ class HMap(dict):
     """a HashMap / BTreeMap value (a plain dict is a struct)"""
 
 
+class BMap(HMap):
+    """a BTreeMap: iteration in key order"""
+
+
+class Entry:
+    def __init__(self, m, k):
+        self.m, self.k = m, k
+
+
 class Opaque:
     def __init__(self, what):
         self.what = what
@@ -440,6 +449,22 @@ class Interp:
             r = self.call({"k": "Call", "callee": f.what, "m": None, "args": [], "f": {"k": "Path", "res": f.what}}, None, list(args), self, {})
             if r is not None:
                 return r[0]
+        if isinstance(f, Opaque) and len(args) == 1:
+            w = str(f.what)
+            if w.endswith(("ToString::to_string", "String::from", "ToOwned::to_owned", "Into::into", "From::from", "Clone::clone", "convert::identity", "str::to_string", "str::to_owned")):
+                a = args[0]
+                if isinstance(a, str):
+                    return a
+                if isinstance(a, bool):
+                    return "true" if a else "false"
+                if isinstance(a, int) and w.endswith("to_string"):
+                    return str(a)
+                if w.endswith(("Clone::clone", "convert::identity", "Into::into", "From::from", "ToOwned::to_owned")):
+                    return a
+            if w.endswith(("Option::Some",)):
+                return some(args[0])
+            if w.endswith(("Result::Ok",)):
+                return V("Result::Ok", [args[0]])
         if isinstance(f, Opaque) and self.prog is not None and f.what in self.prog.fns:
             r = self.crate_call({"callee": f.what}, list(args))
             if r is not None:
@@ -504,6 +529,43 @@ class Interp:
                     return V("Result::Ok", [recv == "true"]) if recv in ("true", "false") else V("Result::Err", [Opaque("ParseBoolError")])
             except ValueError:
                 return V("Result::Err", [Opaque("ParseFloatError")])
+        if isinstance(recv, str) and len(n["args"]) == 1 and m in ("trim_matches", "trim_start_matches", "trim_end_matches", "strip_prefix", "strip_suffix", "split", "find", "rfind"):
+            a = self.ev(n["args"][0], env)
+            if isinstance(a, str) and a:
+                if m == "trim_matches":
+                    r_ = recv
+                    while r_.startswith(a):
+                        r_ = r_[len(a):]
+                    while r_.endswith(a):
+                        r_ = r_[:-len(a)]
+                    return r_
+                if m == "trim_start_matches":
+                    r_ = recv
+                    while r_.startswith(a):
+                        r_ = r_[len(a):]
+                    return r_
+                if m == "trim_end_matches":
+                    r_ = recv
+                    while r_.endswith(a):
+                        r_ = r_[:-len(a)]
+                    return r_
+                if m == "strip_prefix":
+                    return some(recv[len(a):]) if recv.startswith(a) else NONE
+                if m == "strip_suffix":
+                    return some(recv[:-len(a)]) if recv.endswith(a) else NONE
+                if m == "split":
+                    return recv.split(a)
+                if m in ("find", "rfind"):
+                    i_ = recv.find(a) if m == "find" else recv.rfind(a)
+                    return some(len(recv[:i_].encode())) if i_ >= 0 else NONE
+        if isinstance(recv, str) and not n["args"] and m in ("chars", "bytes", "trim_start", "trim_end", "lines"):
+            if m == "chars":
+                return list(recv)
+            if m == "bytes":
+                return list(recv.encode())
+            if m == "lines":
+                return recv.splitlines()
+            return recv.lstrip() if m == "trim_start" else recv.rstrip()
         if isinstance(recv, str) and len(n["args"]) == 2 and m == "replace":
             a, b = self.ev(n["args"][0], env), self.ev(n["args"][1], env)
             if isinstance(a, str) and isinstance(b, str):
@@ -513,10 +575,49 @@ class Interp:
             if isinstance(a, str):
                 return {"starts_with": recv.startswith, "ends_with": recv.endswith, "contains": lambda x: x in recv,
                         "eq_ignore_ascii_case": lambda x: x.lower() == recv.lower()}[m](a)
+        if isinstance(recv, Entry):
+            if m in ("or_default", "or_insert", "or_insert_with", "or_insert_with_key"):
+                if recv.k not in recv.m:
+                    if m == "or_default":
+                        ty = str(n.get("ty", ""))
+                        dv = [] if "Vec<" in ty else ("" if "String" in ty else (0 if re.search(r"&mut [iu](8|16|32|64|size)", ty) else None))
+                        if dv is None:
+                            raise Undecided("or_default of type %s" % ty)
+                    elif m == "or_insert":
+                        dv = self.ev(n["args"][0], env)
+                    else:
+                        dv = self.apply(self.ev(n["args"][0], env), [] if m == "or_insert_with" else [recv.k])
+                    dict.__setitem__(recv.m, recv.k, dv)
+                return recv.m[recv.k]
+            raise Undecided("entry method %s" % m)
         if isinstance(recv, HMap):
             argv = [self.ev(a, env) for a in n["args"]]
             if any(isinstance(a, Opaque) for a in argv):
                 raise Undecided("map key is opaque")
+            srt = (lambda it_: sorted(it_)) if isinstance(recv, BMap) else (lambda it_: list(it_))
+            if m == "entry" and len(argv) == 1:
+                return Entry(recv, argv[0])
+            if m in ("keys", "values", "iter", "into_iter", "iter_mut", "values_mut", "into_values", "into_keys") and not argv:
+                ks = srt(recv.keys())
+                if m in ("keys", "into_keys"):
+                    return ks
+                if m in ("values", "values_mut", "into_values"):
+                    return [recv[k_] for k_ in ks]
+                return [(k_, recv[k_]) for k_ in ks]
+            if m in ("last_key_value", "first_key_value") and not argv:
+                ks = srt(recv.keys())
+                if not ks:
+                    return NONE
+                k_ = ks[-1] if m == "last_key_value" else ks[0]
+                return some((k_, recv[k_]))
+            if m in ("pop_last", "pop_first") and not argv:
+                ks = srt(recv.keys())
+                if not ks:
+                    return NONE
+                k_ = ks[-1] if m == "pop_last" else ks[0]
+                return some((k_, recv.pop(k_)))
+            if m == "get_mut" and len(argv) == 1:
+                return some(recv[argv[0]]) if argv[0] in recv else NONE
             if m == "get" and len(argv) == 1:
                 return some(recv[argv[0]]) if argv[0] in recv else NONE
             if m == "contains_key" and len(argv) == 1:
@@ -744,6 +845,27 @@ class Interp:
             i = self.ev(n["args"][0], env)
             if isinstance(i, int):
                 return some(recv[i]) if 0 <= i < len(recv) else NONE
+        if isinstance(recv, (list, ListIter)) and not n["args"] and m in ("next_back", "last") and not (isinstance(recv, list) and m == "last" and False):
+            items = recv if isinstance(recv, list) else recv.items[recv.pos:]
+            if m == "next_back" or isinstance(recv, ListIter):
+                return some(items[-1]) if items else NONE
+        if isinstance(recv, list) and not n["args"] and m == "next" and n["recv"]["k"] in ("MCall", "Call"):
+            # the first element of a temporary iterator (`x.iter().next()`)
+            return some(recv[0]) if recv else NONE
+        if isinstance(recv, list) and len(n["args"]) == 1 and m in ("remove", "swap_remove") and "Vec" in str(n.get("callee", "")):
+            i_ = self.ev(n["args"][0], env)
+            if isinstance(i_, int) and 0 <= i_ < len(recv):
+                return recv.pop(i_)
+            raise Undecided("Vec::remove out of range (a panic in the analysed code)")
+        if isinstance(recv, list) and len(n["args"]) == 2 and m == "insert" and "Vec" in str(n.get("callee", "")):
+            i_, v_ = self.ev(n["args"][0], env), self.ev(n["args"][1], env)
+            if isinstance(i_, int) and 0 <= i_ <= len(recv):
+                recv.insert(i_, v_)
+                return ()
+        if isinstance(recv, list) and not n["args"] and m == "pop":
+            return some(recv.pop()) if recv else NONE
+        if isinstance(recv, list) and not n["args"] and m in ("first", "last", "first_mut", "last_mut"):
+            return (some(recv[0] if m.startswith("first") else recv[-1])) if recv else NONE
         if isinstance(recv, list) and not n["args"] and m in ("first", "last"):
             return (some(recv[0] if m == "first" else recv[-1])) if recv else NONE
         if isinstance(recv, (list, ListIter)) and not n["args"]:
@@ -865,7 +987,9 @@ class Interp:
             return ""
         if short(n.get("callee", ""), 2) in ("HashSet::new", "BTreeSet::new", "HashSet::with_capacity", "HashSet::default"):
             return set()
-        if short(n.get("callee", ""), 2) in ("HashMap::new", "BTreeMap::new", "HashMap::with_capacity", "HashMap::default"):
+        if short(n.get("callee", ""), 2) in ("BTreeMap::new", "BTreeMap::default"):
+            return BMap()
+        if short(n.get("callee", ""), 2) in ("HashMap::new", "HashMap::with_capacity", "HashMap::default"):
             return HMap()
         if short(n.get("callee", ""), 2) in ("Vec::new", "Vec::with_capacity", "VecDeque::new"):
             return []
